@@ -155,3 +155,176 @@ for nm, tier in (("rs_ack_slice_n2", "quick"), ("rs_ack_slice_n3", "thorough")):
       bound="one sliced message of %s slices, ack flags symbolic, slice index < num_slices (Inv_SP)" % nm[-1], **RR)
 L("rs_init", props=["C09", "C14"], variant=V2, functions="SendChannelReliable::new", claim="fresh channel empty; get_packets_to_send on empty returns nothing and leaves budget/sequence", bound="none", **RR)
 L("rs_witness", props=["C03", "C08", "C13", "C14", "C15"], variant=V2, expect="fail", functions="-", claim="vacuity witness", **RR)
+
+# --------------------------------------------------------------------------------------------
+# renet: unreliable channel (C03, C06, C09, C13, C14)
+UR = dict(crate="renet", file="channel/unreliable.rs")
+for nm in ("us_send_n0", "us_send_n1"):
+    L(nm, props=["C09", "C03"], variant=V2, functions="SendChannelUnreliable::{send_message, can_send_message, available_memory}",
+      claim="a message is queued exactly once with its own bytes iff mem+len <= max, otherwise dropped whole; accounting exact",
+      bound="%s queued messages, lengths <= 4000, max <= 2^40 symbolic" % nm[-1], **UR)
+for nm in ("us_gps_n1", "us_gps_n2"):
+    L(nm, props=["C09", "C14"], variant=V2, timeout=600, functions="SendChannelUnreliable::get_packets_to_send",
+      claim="the queue is flushed and its bytes returned whatever the budget; budget deducted == bytes of messages that fitted at their turn (queue order); "
+            "what does not fit is dropped whole; sequence +1 per packet; slice id +1 per sliced message sent",
+      bound="%s queued messages of 0..=2400 bytes (<= 2 slices), budget/sequence/ids symbolic" % nm[-1], **UR)
+L("us_pack_small", props=["C03", "C13"], variant=V2, tier="thorough", timeout=900, functions="SendChannelUnreliable::get_packets_to_send",
+  claim="one small message travels in one SmallUnreliable packet with exactly its bytes, <= 1300 B", bound="1 message 0..=1200 B, budget unlimited", **UR)
+L("us_pack_sliced", props=["C03", "C13"], variant=V2, tier="thorough", timeout=900, functions="SendChannelUnreliable::get_packets_to_send",
+  claim="a message of (1200,2400] bytes travels as exactly two slices, slice i = bytes [1200 i, ..), same slice message id, each <= 1300 B", bound="1 message, budget unlimited", **UR)
+for nm in ("ur_msg_n0", "ur_msg_n1"):
+    L(nm, props=["C03", "C09"], variant=V2, functions="ReceiveChannelUnreliable::{process_message, receive_message}",
+      claim="a delivered message is queued once iff within budget (else dropped whole) and handed out FIFO with its own bytes, bytes returned; nothing fabricated",
+      bound="%s queued messages; lengths <= 4000, max <= 2^40 symbolic" % nm[-1], **UR)
+for nm, tier in (("ur_slice_i0", "quick"), ("ur_slice_i0_done", "quick"), ("ur_slice_i1", "quick"), ("ur_slice_i1_empty", "thorough"), ("ur_slice_oob", "quick"), ("ur_slice_other", "quick")):
+    L(nm, props=["C03", "C06", "C09"], variant=V2S, tier=tier, timeout=600, mem_gb=16,
+      functions="ReceiveChannelUnreliable::process_slice, SliceConstructor::process_slice",
+      claim="ANY V-valid slice on a state with one queued message and one live 2-slice constructor: returns; a message surfaces only when its last missing slice arrives, exactly once; "
+            "a lying num_slices cannot wrap the accounting; accounting == recomputed sum <= max; slices / slices_last_received stay in step",
+      bound="instance fixes payload length, last-slice-present flag, index class (0/1/any >= 2), same id (num_slices arbitrary) or other id (num_slices 2); SLICE_SIZE literal rewritten 1200 -> 8", **UR)
+for nm in ("ur_discard_n1", "ur_discard_n2"):
+    L(nm, props=["C09"], variant=V2S, functions="ReceiveChannelUnreliable::discard_incomplete_old_slices",
+      claim="afterwards exactly the constructors without progress for >= 3 s are gone (ids in any arrival-time order), their reservation returned, key sets in step",
+      bound="%s live constructors, ids and last-progress times symbolic (whole seconds)" % nm[-1], **UR)
+L("ur_init", props=["C09"], variant=V2, functions="SendChannelUnreliable::new, ReceiveChannelUnreliable::new", claim="fresh channels are empty", bound="none", **UR)
+L("ur_witness", props=["C03", "C09", "C14"], variant=V2, expect="fail", functions="-", claim="vacuity witness", **UR)
+
+# --------------------------------------------------------------------------------------------
+# renet: connection level (C06, C08, C12, C13, C16)
+RC = dict(crate="renet", file="remote_connection.rs")
+for nm, tier in (("ack_add_n0", "quick"), ("ack_add_n1", "quick"), ("ack_add_n2", "quick"), ("ack_add_n3", "thorough")):
+    L(nm, props=["C08", "C16"], variant=V2, tier=tier, timeout=600, functions="RenetClient::add_pending_ack",
+      claim="pending acks stay sorted/disjoint/non-adjacent and denote exactly old set + {sequence}: an endpoint never acknowledges a sequence it did not receive",
+      bound="list of %s ranges (length fixed per instance), all bounds and the new sequence symbolic < 2^62, witness sequence" % nm[-1], **RC)
+L("ack_cap_64", props=["C13", "C16", "C08"], variant=V2, timeout=900, mem_gb=16, functions="RenetClient::add_pending_ack",
+  claim="with 64 ranges pending, recording any further sequence (below, between or above) keeps at most 64 ranges and keeps the newest", bound="64 single-element ranges spaced by 10 from a symbolic base, new sequence symbolic", **RC)
+for nm, tier in (("ack_largest_n1", "quick"), ("ack_largest_n2", "quick"), ("ack_largest_n3", "thorough")):
+    L(nm, props=["C08"], variant=V2, tier=tier, timeout=600, functions="RenetClient::acked_largest",
+      claim="trimming forgets exactly the sequences <= the largest sequence covered by an acknowledged ack packet", bound="list of %s ranges, all symbolic" % nm[-1], **RC)
+for nm in ("dc_absorb_status", "dc_absorb_send", "dc_absorb_recv", "dc_absorb_packet", "dc_absorb_gps", "dc_absorb_reason", "dc_absorb_update"):
+    L(nm, props=["C12"], variant=V2, timeout=600, functions="RenetClient::{set_connected, set_connecting, disconnect, disconnect_due_to_transport, send_message, receive_message, process_packet, get_packets_to_send, update, disconnect_with_reason}",
+      claim="Disconnected{r} is absorbing: status and first reason unchanged, nothing emitted, accepted or handed out, channel observables unchanged",
+      bound="client with one reliable + one unreliable channel per direction (struct literal), any reason shape, one public call (%s); raw packets <= 8 B" % nm.split("_")[-1],
+      stubs="ConnectionStats::update (telemetry; divides a symbolic u128)", **RC)
+L("dc_first_reason", props=["C12"], variant=V2, functions="RenetClient::{disconnect, disconnect_due_to_transport, disconnect_with_reason, set_connected, set_connecting}",
+  claim="the first disconnect cause is kept whatever follows", bound="all reason shapes", **RC)
+L("rc_witness", props=["C08", "C12", "C16"], variant=V2, expect="fail", functions="-", claim="vacuity witness", **RC)
+
+# --------------------------------------------------------------------------------------------
+# renet: wire format (C06, C13, C16)
+RP = dict(crate="renet", file="packet.rs")
+VV = {"bytes": "vec", "cap": 2, "qcap": 2, "fs": 128}
+for nm in ("rt_renet_small_rel_1", "rt_renet_small_rel_2", "rt_renet_small_rel_empty", "rt_renet_small_unrel_1", "rt_renet_small_unrel_2",
+           "rt_renet_slice_rel", "rt_renet_slice_unrel", "rt_renet_ack_1", "rt_renet_ack_2", "rt_renet_ack_3"):
+    L(nm, props=["C16", "C13"] + (["C08"] if "ack" in nm else []), variant=VV, timeout=600,
+      tier="thorough" if nm in ("rt_renet_small_rel_empty", "rt_renet_ack_3") else "quick",
+      functions="Packet::to_bytes, Packet::from_bytes (octets varints)",
+      claim="from_bytes(to_bytes(p)) == p, the whole serialization is consumed, and its length equals the wire-format formula" +
+            (" (an ack packet denotes exactly its set of sequences)" if "ack" in nm else ""),
+      bound="all field magnitudes < 2^62 across the 1/2/4/8-byte varint classes; message/payload lengths and range count fixed per instance (<= 3 bytes, <= 3 ranges)", **RP)
+for nm, tier in (("parse_total_t0", "quick"), ("parse_total_t1", "quick"), ("parse_total_t2", "quick"), ("parse_total_t3", "quick"), ("parse_total_t4", "quick"),
+                 ("parse_total_other", "quick"), ("parse_total_t0_12", "thorough"), ("parse_total_t2_12", "thorough"), ("parse_total_t4_12", "thorough")):
+    L(nm, props=["C06"], variant=VV, tier=tier, timeout=1200 if "12" in nm else 600, mem_gb=16,
+      functions="Packet::from_bytes",
+      claim="the parser returns normally on every byte string and every Ok value satisfies V (slice count 1..=10^6, reliable slice payload 1..=1200, ack ranges non-empty/ascending/separated)",
+      bound="all byte strings of length <= %s with the given first byte" % ("12" if "12" in nm else "8"), **RP)
+for nm in ("rt_renet_rev_t0", "rt_renet_rev_t2", "rt_renet_rev_t4"):
+    L(nm, props=["C16"], variant=VV, timeout=900, mem_gb=16, functions="Packet::from_bytes, Packet::to_bytes",
+      claim="a byte string that decodes re-encodes to bytes that decode to the same value", bound="all byte strings <= 8 B of packet type %s" % nm[-1], **RP)
+L("ser_short_buffer", props=["C13"], variant=VV, functions="Packet::to_bytes", claim="a too small buffer yields BufferTooShort, never a panic or an over-long write", bound="buffer 0..=24 B", **RP)
+L("pk_witness", props=["C06", "C16", "C13"], variant=VV, expect="fail", functions="-", claim="vacuity witness", **RP)
+
+# renet: server (C11, C12)
+RS = dict(crate="renet", file="server.rs")
+for nm in ("ev_add_n0", "ev_add_n1", "ev_remove_n1", "ev_remove_n2", "ev_disconnect_n1", "ev_disconnect_all_n2", "ev_local_disconnect_n1", "ev_local_new_n1"):
+    L(nm, props=["C12"], variant=V2, timeout=600, tier="thorough" if nm in ("ev_add_n0", "ev_remove_n2") else "quick",
+      functions="RenetServer::{add_connection, remove_connection, disconnect, disconnect_all, new_local_client, disconnect_local_client}",
+      claim="an event is reported exactly when the witness client's membership changes: Connected only when it was absent, Disconnected only when it was present, with the "
+            "connection's stored first reason (Transport if healthy); other clients' status untouched",
+      bound="%s existing connections with symbolic ids and symbolic healthy/disconnected(reason) status; one call; empty event queue beforehand" % nm[-1], **RS)
+for nm in ("srv_frame_send_rel", "srv_frame_send_unrel", "srv_frame_recv", "srv_frame_disconnect", "srv_frame_packet", "srv_frame_gps"):
+    L(nm, props=["C11", "C06"] if "packet" in nm else ["C11"], variant=V2, timeout=900, mem_gb=16,
+      tier="thorough" if nm in ("srv_frame_send_unrel",) else "quick",
+      functions="RenetServer::{send_message, receive_message, disconnect, process_packet_from, get_packets_to_send}",
+      claim="an operation addressed to one client (or to an unknown id) changes no observable of another client (channel memory, pending acks, status)",
+      bound="two connections, each with one reliable + one unreliable channel per direction; raw packets <= 6 B", **RS)
+for nm in ("bcast_rel", "bcast_unrel", "bcast_except_rel"):
+    L(nm, props=["C11"], variant=V2, timeout=900, mem_gb=16, functions="RenetServer::{broadcast_message, broadcast_message_except}",
+      claim="a broadcast queues exactly one message of the right length on every connection that is not disconnected (minus the excluded id) and touches nothing else",
+      bound="two connections (one possibly disconnected), message length <= 1000", **RS)
+L("srv_witness", props=["C11", "C12"], variant=V2, expect="fail", functions="-", claim="vacuity witness", **RS)
+
+# --------------------------------------------------------------------------------------------
+# renetcode: client (C07, C17, C18)
+NC = dict(crate="renetcode", file="client.rs", variant={"fs": 512}, stubs="chacha20poly1305 primitive -> models/chacha.rs")
+for nm in ("client_new_total_a0", "client_new_total_a1", "client_new_total_a2"):
+    L(nm, props=["C07"], functions="NetcodeClient::new", claim="constructing a client from any token a parser can return yields Ok or Err, never a panic; Ok only with a first server address",
+      bound="token with %s leading address slots filled (count fixed per instance), every other field symbolic" % nm[-1], **NC)
+for nm in ("cl_update_connected", "cl_update_requesting_a1", "cl_update_requesting_a2", "cl_update_responding_a2", "cl_update_disconnected"):
+    L(nm, props=["C07", "C18"], timeout=600, functions="NetcodeClient::update_internal_state",
+      claim="update returns normally for every token/clock; connected: timed out iff timeout>0 and last authentic packet + timeout < now; connecting: expired iff elapsed >= token lifetime, "
+            "else on timeout fail over to the next listed address (timers reset) or give up; disconnected stays disconnected",
+      bound="state fixed per instance, token fields / clocks (whole seconds < 2^40) / timeout symbolic", **NC)
+for nm in ("cl_emit_requesting", "cl_emit_responding", "cl_emit_connected", "cl_emit_disconnected"):
+    L(nm, props=["C17", "C18"], timeout=900, mem_gb=16, functions="NetcodeClient::generate_packet, Packet::encode",
+      claim="the state's packet is emitted iff the 250 ms send timer elapsed (never when disconnected), to the current server address; it is sealed under (client_to_server_key, sequence) and the sequence then advances by one",
+      bound="state fixed per instance; sequence < 2^62, clocks, keys symbolic", **NC)
+L("cl_payload_nonce", props=["C17", "C04"], timeout=900, functions="NetcodeClient::generate_payload_packet",
+  claim="payloads are sealed only when connected, under (client_to_server_key, sequence), sealing exactly the payload bytes; sequence + 1", bound="payload 0..=64 B, any state", **NC)
+L("cl_payload_limit", props=["C13"], functions="NetcodeClient::generate_payload_packet", claim="payloads above 1300 B are refused before sealing", bound="1301..=1400 B", **NC)
+L("cl_disconnect_nonce", props=["C17"], timeout=900, functions="NetcodeClient::{disconnect, generate_packet, generate_payload_packet}",
+  claim="disconnect seals under (key, sequence) and leaves a state from which nothing else is sealed", bound="connected client", **NC)
+for nm in ("cl_frame_requesting", "cl_frame_responding", "cl_frame_connected", "cl_frame_disconnected"):
+    L(nm, props=["C07", "C18", "C04"], timeout=900, mem_gb=16, functions="NetcodeClient::process_packet, Packet::decode",
+      claim="a datagram the AEAD does not accept (or the window rejects) changes nothing: state, receive/send timers, window, counters; payloads surface only when connected; only legal transitions",
+      bound="all datagrams 0..=64 B, arbitrary window, state fixed per instance, AEAD verdict nondeterministic", **NC)
+L("cl_progress", props=["C18"], timeout=900, mem_gb=16, functions="NetcodeClient::process_packet", claim="authentic challenge -> responding (challenge stored, timer reset); authentic keep-alive -> connected; authentic disconnect -> disconnected by server",
+  bound="one scripted sequence with symbolic token / challenge sequence", **NC)
+L("cl_witness", props=["C07", "C17", "C18"], expect="fail", functions="-", claim="vacuity witness", **NC)
+
+# --------------------------------------------------------------------------------------------
+# renetcode: tokens (C05, C07, C16, C17)
+TK = dict(crate="renetcode", file="token.rs", variant={"fs": 64}, stubs="chacha20poly1305 primitive -> models/chacha.rs (identity cipher, recorded calls)")
+for nm, tier in (("rt_token_priv_k1_v4", "quick"), ("rt_token_priv_k1_v6", "thorough"), ("rt_token_priv_k2_mix", "quick"), ("rt_token_priv_k3_mix", "thorough")):
+    L(nm, props=["C16", "C05", "C17"], tier=tier, timeout=900, mem_gb=16, functions="PrivateConnectToken::{encode, decode, write, read}, write_server_addresses, read_server_addresses, crypto::{encrypt,dencrypted}_in_place_xnonce",
+      claim="decode(encode(t)) == t; seal and open are bound to (XChaCha, private key, token xnonce, aad = VERSION | protocol id | expire timestamp), so a changed public expiry or protocol id is a different AEAD tuple",
+      bound="address count and IPv4/IPv6 pattern fixed per instance (%s); all field values symbolic, user data witnessed at one offset" % nm.split("priv_")[1], **TK)
+for nm in ("rt_token_pub_k1_v4", "rt_token_pub_k2_mix"):
+    L(nm, props=["C16"], timeout=900, mem_gb=16, functions="ConnectToken::{write, read}", claim="read(write(t)) == t", bound="address pattern fixed per instance; all fields symbolic, private data witnessed at one offset", **TK)
+for nm, tier in (("tok_read_total_k0", "quick"), ("tok_read_total_k1_v4", "quick"), ("tok_read_total_k1_v6", "thorough"), ("tok_read_total_k1_none", "quick"), ("tok_read_total_k1_bad", "thorough"),
+                 ("tok_read_total_k2", "thorough"), ("tok_read_total_k33", "quick"), ("tok_read_total_kmax", "thorough")):
+    L(nm, props=["C07"], tier=tier, timeout=900, mem_gb=16, functions="ConnectToken::read, read_server_addresses",
+      claim="parsing arbitrary bytes as a connect token returns Ok or Err, never panics", bound="byte source of every length 0..=1300; announced address count and host-type bytes fixed per instance (%s), all other bytes symbolic" % nm.split("total_")[1], **TK)
+L("tok_priv_decode_total", props=["C07"], timeout=900, mem_gb=16, functions="PrivateConnectToken::{decode, read}", claim="opening + parsing an arbitrary sealed part returns normally", bound="1024 symbolic bytes, one IPv4 address announced, AEAD verdict nondeterministic", **TK)
+L("tok_witness", props=["C07", "C16", "C05"], expect="fail", functions="-", claim="vacuity witness", **TK)
+
+# --------------------------------------------------------------------------------------------
+# renetcode: server (C05, C07, C10, C17, C18, C19)   model-small: NETCODE_MAX_CLIENTS 1024 -> 2
+NS = dict(crate="renetcode", file="server.rs", variant={"fs": 512, "max_clients": 2, "cap": 2},
+          stubs="chacha20poly1305 primitive -> models/chacha.rs (recording identity cipher; DEC_MODE 3 = ideal AEAD: only tuples sealed by honest parties verify)")
+L("srv_nonce_init", props=["C17"], timeout=600, functions="NetcodeServer::new",
+  claim="the server-wide sequence used to seal handshake replies under a session's send key starts at >= 2^63, so it can never collide with that session's own counter (which starts at 0)",
+  bound="max_clients 2", **NS)
+for nm in ("srv_disconnect_11", "srv_disconnect_01"):
+    L(nm, props=["C10", "C17"], timeout=900, mem_gb=16, functions="NetcodeServer::disconnect",
+      claim="ClientDisconnected{id, addr} iff a slot holds id, naming that slot's address; the packet is sealed under that session's (send key, sequence); otherwise None",
+      bound="2 slots, occupancy %s fixed, ids/addresses/keys symbolic (pairwise distinct ids and addresses)" % nm[-2:], **NS)
+L("srv_update_client", props=["C18", "C10", "C17"], timeout=900, mem_gb=16, functions="NetcodeServer::update_client",
+  claim="a connected client is disconnected at update iff timeout>0 and last authentic packet + timeout < now; else a keep-alive is sent iff the 250 ms timer elapsed, sealed under (send key, sequence)",
+  bound="2 occupied slots, clocks (whole seconds), timeout symbolic", **NS)
+L("srv_update_unknown", props=["C10"], timeout=600, functions="NetcodeServer::{update_client, disconnect, is_client_connected, client_addr, user_data}",
+  claim="no event and no lookup result for an id that is not connected", bound="1 occupied slot", **NS)
+L("srv_payload_route", props=["C10", "C17", "C04"], timeout=900, mem_gb=16, functions="NetcodeServer::generate_payload_packet",
+  claim="a payload for id goes to the address of the slot holding id, sealed under that slot's (send key, sequence), sequence + 1; unknown id: error", bound="2 occupied slots, payload 0..=32 B", **NS)
+for nm in ("srv_resp_guard_00", "srv_resp_guard_10", "srv_resp_guard_11"):
+    L(nm, props=["C05", "C10", "C19"], timeout=1200, mem_gb=20, heavy=True, functions="NetcodeServer::process_packet_internal (response path), Packet::decode, ChallengeToken::decode",
+      claim="a response from a pending address connects only if it echoes a challenge this server issued for THAT session's client id; reported id/user data/address are the pending session's; "
+            "no duplicate id; never when all slots are taken; replies go to the source address and are smaller than the datagram",
+      bound="2 slots, occupancy %s; pending session and echoed challenge for symbolic ids A, B; ideal AEAD" % nm[-2:], **NS)
+L("srv_frame_unknown", props=["C07", "C19"], timeout=900, mem_gb=16, functions="NetcodeServer::process_packet_internal",
+  claim="a datagram <= 64 B from an unknown address gets no answer and changes no counter / table", bound="all datagrams 0..=64 B", **NS)
+L("srv_frame_connected", props=["C07", "C18"], timeout=900, mem_gb=16, functions="NetcodeServer::process_packet_internal",
+  claim="a datagram the AEAD rejects, from a connected address, surfaces nothing and does not refresh the timeout or touch the session", bound="all datagrams 0..=64 B, AEAD always rejects", **NS)
+L("srv_surface", props=["C04", "C10"], timeout=900, mem_gb=16, functions="NetcodeServer::process_packet_internal",
+  claim="a genuine payload / disconnect is surfaced on its session, attributed to the id of the slot found by source address, opened with that slot's receive key", bound="2 occupied slots, ideal AEAD", **NS)
+L("srv_witness", props=["C05", "C10", "C17", "C18", "C19"], expect="fail", functions="-", claim="vacuity witness", **NS)
